@@ -10,6 +10,7 @@ import (
 	"testing"
 	"time"
 
+	"verif/internal/match"
 	"verif/internal/model"
 	"verif/internal/vk"
 
@@ -442,7 +443,7 @@ func checkNestSrc(r *vk.Run, prog []model.Node, src string, c NestCase) *vk.Fail
 			return map[string]interface{}{"template": src, "expected": want.Out, "conditions evaluated": mtrace}
 		})
 	}
-	if res.Panicked() || (res.Err != nil) != (want.Err != "") || res.Out != want.Out {
+	if res.Panicked() || (res.Err != nil) != (want.Err != "") || !match.SameText(res.Out, want.Out) {
 		return &vk.Fail{Kind: "nest", Case: c, Msg: fmt.Sprintf("%s gave %s, reference says out=%q err=%q", src, res, want.Out, want.Err)}
 	}
 	if want.Err == "" && !reflect.DeepEqual(mtrace, ptrace) {
